@@ -99,9 +99,37 @@ theorem wrapPtrs_erase (c : Codec) : ∀ t : Ty, wrapPtrs (erase t) c = wrapPtrs
   | .bool => rfl | .int k => rfl | .f32 => rfl | .f64 => rfl | .str => rfl | .bytes => rfl | .any => rfl
   | .arr n t => rfl
 
-theorem isStructBase_erase (t : Ty) : isStructBase (erase t) = isStructBase t := by
+/-- on a `nameSafe` type (no wrapper called "RawMessage") `embBase`, which stops at the types encoded through their methods,
+is `baseTy` -/
+theorem embBase_eq_baseTy : ∀ t : Ty, nameSafe t = true → embBase t = baseTy t
+  | .named n t, h => by
+    simp only [nameSafe, Bool.and_eq_true, bne_iff_ne, ne_eq] at h
+    have : embBase (.named n t) = embBase t := by
+      rw [embBase]; intro e; exact absurd e h.1
+    rw [this]; simp only [baseTy]; exact embBase_eq_baseTy t h.2
+  | .ptr t, h => by
+    simp only [nameSafe] at h
+    simp only [embBase, baseTy]; exact embBase_eq_baseTy t h
+  | .slice t, _ => rfl
+  | .map k v, _ => rfl
+  | .struct fs, _ => rfl
+  | .bool, _ => rfl | .int k, _ => rfl | .f32, _ => rfl | .f64, _ => rfl | .str, _ => rfl | .bytes, _ => rfl
+  | .any, _ => rfl
+  | .arr n t, _ => rfl
+
+/-- a type without `.named` wrappers at pointer depth: `embBase` is `baseTy` -/
+theorem embBase_erase : ∀ t : Ty, embBase (erase t) = baseTy (erase t)
+  | .named n t => by simp only [erase]; exact embBase_erase t
+  | .ptr t => by simp only [erase, embBase, baseTy]; exact embBase_erase t
+  | .slice t => rfl
+  | .map k v => rfl
+  | .struct fs => rfl
+  | .bool => rfl | .int k => rfl | .f32 => rfl | .f64 => rfl | .str => rfl | .bytes => rfl | .any => rfl
+  | .arr n t => rfl
+
+theorem isStructBase_erase (t : Ty) (h : nameSafe t = true) : isStructBase (erase t) = isStructBase t := by
   unfold isStructBase
-  rw [baseTy_erase]
+  rw [embBase_erase, embBase_eq_baseTy t h, baseTy_erase]
   have hh := baseTy_head t
   generalize baseTy t = b at hh
   cases b <;> simp [erase, headBase] at hh ⊢
@@ -147,7 +175,7 @@ theorem fieldCodecOf_erase (num : Nat) : ∀ t : Ty, nameSafe t = true → field
     rw [this]; simp only [erase]; exact fieldCodecOf_erase num t h.2
   | .ptr t, h => by
     have := codecOf_erase (.ptr t) h
-    have hs := isStructBase_erase (.ptr t)
+    have hs := isStructBase_erase (.ptr t) h
     simp only [erase] at this hs
     simp only [erase, fieldCodecOf, this, hs]
   | .slice t, h => by
@@ -166,11 +194,11 @@ theorem fieldCodecOf_erase (num : Nat) : ∀ t : Ty, nameSafe t = true → field
       have e2 : fieldCodecOf num (.slice t) = (isStructBase t, true,
           .slice (codecOf t) num (codecOf t).wire (isStructBase t)) := by
         rw [fieldCodecOf]; intro e; exact isU8_false _ h2 e
-      rw [e1, e2, isStructBase_erase, codecOf_erase t h.2]
+      rw [e1, e2, isStructBase_erase t h.2, codecOf_erase t h.2]
   | .map k v, h => by
     simp only [nameSafe, Bool.and_eq_true] at h
     simp only [erase, fieldCodecOf, codecOf_erase k h.1, codecOf_erase v h.2, fieldCodecOf_erase 1 k h.1,
-      fieldCodecOf_erase 2 v h.2, isStructBase_erase]
+      fieldCodecOf_erase 2 v h.2, isStructBase_erase k h.1, isStructBase_erase v h.2]
   | .struct fs, h => by
     have := codecOf_erase (.struct fs) h
     simp only [erase] at this
